@@ -117,3 +117,17 @@ prop("C12",
      assumptions=["a failed write leaves the record physically incomplete (if the omitted suffix is all zero bytes the torn prefix is shortened, because the zero-filled segment would already hold the complete record)",
                   "known finding sparse-index-files-not-crash-consistent: I/O-fault cases run in KeyOnly instead of sparse mode (counted under excluded)"],
      technique="twin-database differential testing with exhaustive fault-point enumeration per generated commit")
+
+prop("C13",
+     level="exploration",
+     tests=[dict(name="TestC13", quick=4000, thorough=60000)],
+     rule="rapid-generated histories of 1-12 write transactions of 2-6 calls each on one structure (KV get/put/del/getall, every list, set and sorted-set API incl. pops/peeks/ranges) over 1-2 keys, so calls that read or pop what the same transaction already modified are the norm. Oracle: the sequential reference model - every in-transaction return value and the full re-read after Commit must be explained by running the calls one after another on the state at Begin; under the recorded finding c13-snapshot-reads a second, deviant explanation is accepted and counted (return values judged on the state at Begin; the state after Commit must be reachable by applying the logged calls in order, a call whose precondition does not hold on the running state being a no-op; candidate states are enumerated). A case explained by neither is a violation. Non-trivial: a transaction with a read/pop of a (structure,bucket,key) that an earlier call of the same transaction modified.",
+     assumptions=["known finding c13-snapshot-reads is applied as a named model deviation; deviations_applied counts the transactions that needed it"],
+     technique="model-based property testing (rapid) with a strict and a deviant reference model")
+
+prop("C03",
+     level="exploration",
+     tests=[dict(name="TestC03", quick=700, thorough=8000)],
+     rule="rapid-generated KV histories (puts, deletes, expired and live TTL puts over 3-8 keys on the alphabet {a,b,c}, reopen steps, all three index modes); then for every prefix of every written key ALL pages are enumerated: PrefixScan(prefix, offset, limit) for offset 0..n+1 and limit in {ScanNoLimit} U 1..n+1 (n = keys ever written under the prefix) and PrefixSearchScan(prefix, regexp, 0, limit) for every such limit; each page must equal live_prefixed[offset:offset+limit] of the model ('not found' only when that slice is empty). Non-trivial: under some prefix a deleted or expired key precedes a live key; inner_enumerations counts the pages checked.",
+     assumptions=["limit 0 and limits below -1 are unspecified and not generated"],
+     technique="model-based property testing (rapid) with exhaustive page enumeration per generated history")
